@@ -78,7 +78,7 @@ func init() {
 		if mode == 2 {
 			cfg.Env = map[string]string{"GO_FLAGS_COMPLETION": "1"}
 		} else if extra == 3 {
-			cfg.Env = map[string]string{"C09_ENV": "zz"}
+			cfg.Env = map[string]string{"C09_ENV": "1,zz,3"} // split on env-delim: the middle value does not convert
 			c.Hit("bad-environment-default")
 		}
 		res := ref.Run(cfg, argv)
@@ -197,7 +197,7 @@ func init() {
 		Body:       body,
 		DevBound:   func(th bool) int { return 1 },
 		Rule: "every command tree with <= 3 (quick) / <= 4 (thorough) commands and depth <= 3 with an executable command at every node, HelpFlag set; one deviation from the plain tree at a time: " +
-			"subcommands-optional on any subset of nodes incl. the parser, a required option on any node, required positionals on any node, any subset of commands hidden, IgnoreUnknown set in addition (together with an int positional), the parser's flag in a group added after the commands and after a parse that selected each of them, an int option of the parser whose environment default does not convert (together with an optional int positional); " +
+			"subcommands-optional on any subset of nodes incl. the parser, a required option (hidden as well on even nodes) on any node, required positionals on any node, any subset of commands hidden, IgnoreUnknown set in addition (together with an int positional), the parser's flag in a group added after the commands and after a parse that selected each of them, an []int option of the parser whose environment default (three values, env-delim) does not convert in the middle (together with an optional int positional); " +
 			"x {Execute, CommandHandler, completion mode} x {command succeeds, command returns an error} x every sequence of <= 3 tokens (<= 4 on trees of <= 2 commands quick / <= 3 commands thorough) over command names, every node's flag and the fault tokens " +
 			"{unknown option, argument to a flag, --help, -h, -h followed by an unknown character in one cluster, unknown word, a word and a number (the required positional is an int on some nodes: conversion faults, also after the -- terminator)}; this contains every single fault at every position of every valid vector of that length; oracle = CLM verdict vs call log",
 		Assumptions:  []string{"when no command is active there is nothing to Execute; a CommandHandler is still called once with a nil command (as its documentation says)"},
